@@ -13,7 +13,7 @@ EXTENDS Dispatch, Json, IOUtils, TLCExt
 VARIABLES tid, l, sil,
           nwait    \* sender whose callback is inside a nested send whose put has not happened yet (0: none)
 tvars == <<pc, sent, queue, locked, cur, running, started, done, failed, dropped, exc, yields,
-           nnested, nfails, active, tid, l, sil, nwait>>
+           nnested, nfails, active, moves, ignored, tid, l, sil, nwait>>
 
 Batch == JsonDeserialize(IOEnv.BATCH_FILE)
 NB == Len(Batch)
@@ -33,21 +33,26 @@ TBegin == HasLine("B") /\ Begin(L.s) /\ cur[L.s] = LEv /\ Consume /\ Keep
 \* a nested send is logged at its start (N) and at its return (NR); the put itself is lock-free and
 \* happens somewhere in between as an internal step
 TNest  == HasLine("N") /\ pc[L.s] = "run" /\ nwait = 0 /\ nwait' = L.s /\ UNCHANGED dvars /\ Consume
-TNestPut == /\ nwait # 0 /\ Nested(nwait) /\ nwait' = 0 /\ sil' = sil /\ UNCHANGED <<tid, l>>
+\* executions stepped by the line tracer also log the return of the engine's put() (line "put"): then puts are not inferred
+HasPuts == \E k \in DOMAIN Lines : Lines[k].e = "put"
+TNestPut == /\ ~HasPuts /\ nwait # 0 /\ Nested(nwait) /\ nwait' = 0 /\ sil' = sil /\ UNCHANGED <<tid, l>>
+TPut == /\ HasLine("put")
+        /\ IF nwait = L.s THEN Nested(nwait) /\ nwait' = 0 ELSE Put(L.s) /\ nwait' = nwait
+        /\ Consume
 TNestRet == HasLine("NR") /\ nwait = 0 /\ UNCHANGED dvars /\ Consume /\ Keep
 TEnd   == HasLine("E") /\ nwait = 0 /\ (IF L.raised THEN Fail(L.s) ELSE End(L.s)) /\ cur[L.s] = LEv /\ Consume /\ Keep
 \* only the callback's own exception may come out of a send
 TRet   == HasLine("ret") /\ Ret(L.s) /\ exc[L.s] = L.exc /\ "other" \notin DOMAIN L /\ Consume /\ Keep
 \* the end of the execution: every sender is back and the machine changed state once per
 \* event processed to its end
-TFinish == /\ HasLine("end") /\ AllReturned /\ Cardinality(done) = L.moves
+TFinish == /\ HasLine("end") /\ AllReturned /\ moves = L.moves
            /\ UNCHANGED dvars /\ Consume /\ Keep
 TSilent == /\ sil < SilentBound
-           /\ \E s \in Senders : Put(s) \/ Acquire(s) \/ Check(s) \/ Pop(s) \/ Clear(s) \/ Rel(s)
+           /\ \E s \in Senders : (~HasPuts /\ Put(s)) \/ Acquire(s) \/ Check(s) \/ Pop(s) \/ Skip(s) \/ Clear(s) \/ Rel(s)
                                    \/ Recheck(s) \/ Yield(s)
            /\ sil' = sil + 1 /\ UNCHANGED <<tid, l>> /\ Keep
 
-TNext == TCall \/ TBegin \/ TNest \/ TNestPut \/ TNestRet \/ TEnd \/ TRet \/ TFinish \/ TSilent
+TNext == TCall \/ TBegin \/ TPut \/ TNest \/ TNestPut \/ TNestRet \/ TEnd \/ TRet \/ TFinish \/ TSilent
 TSpec == TInit /\ [][TNext]_tvars
 
 InvFailed == IF ~Mutex THEN 1 ELSE IF ~ExactlyOnce THEN 2 ELSE IF ~SenderFIFO THEN 3
